@@ -1,12 +1,111 @@
 /-
 C02 — every decoded value equals what the JSON text denotes, whenever it is read.
+
+Main theorems (for EVERY accepted text, every value `w` inside it that is not shadowed by a later member of the same name,
+`id` its node — `SubAt v 0 w id`): the node has the type of `w` (`C02_type`); a number reads as the correctly rounded float64
+of its literal or reports the one permitted error (`C02_number`; `parseFloat64` is exact rational rounding, validated against
+strconv and math/big in the `lex` stream); a string reads as the unquoted literal and never fails (`C02_string`); literals
+read as themselves (`C02_bool`); an array has exactly its elements under GetIndex 0…n-1, negative indexes from the end
+(`C02_array`); an object has exactly its distinct keys, each answering with the LAST member of that name (`C02_object`).
+The tree is the one the model of `Unmarshal` builds (`Proofs/DecodeComplete.unmarshalIn_builds`: the heap is `build v`) and
+`build v` represents `v` (`Proofs/Rep.build_rep`). Repeated and reordered reads: a read changes nothing but cache cells
+(`Props/C13`, ReadFrame), and a filled cell holds what the first read computed.
+Not proved here: `Unpack` as a whole (its recursion threads the cache-filling heap through all children).
 -/
-import Ajson.Model.Decode
+import Ajson.Proofs.TreeFacts
 import Ajson.Model.Read
-import Ajson.Spec.Ref
 
 namespace Ajson.Props.C02
-open Ajson
+open Ajson Ajson.Heap Ajson.Spec Ajson.Proofs
+
+/-- for every accepted text the returned root is node 0 of a heap that represents the parsed tree -/
+theorem C02_tree (data : Bytes) (v : STree) (hp : parseRef data = .ok v) :
+    ∃ H, unmarshal data = .ok (H, 0) ∧ Rep H 0 v 0 ∧ WfT data v ∧ H.datas[0]? = some data := unmarshal_tree data v hp
+
+/-- every unshadowed value inside the text has a node of its type -/
+theorem C02_type (data : Bytes) (v : STree) (hp : parseRef data = .ok v) :
+    ∃ H, unmarshal data = .ok (H, 0) ∧ ∀ w id, SubAt v 0 w id → H.typeOf id = w.ntype := by
+  obtain ⟨H, hu, hr, hw, hd⟩ := unmarshal_tree data v hp
+  exact ⟨H, hu, fun w id hs => ((hs.rep hr hw).1.node (hs.rep hr hw).2).1⟩
+
+/-- a number node reads as the correctly rounded float64 of its literal — the literal being exactly the span in the input —
+or reports the one permitted read error when the literal is outside the float64 range -/
+theorem C02_number (data : Bytes) (v : STree) (hp : parseRef data = .ok v) :
+    ∃ H, unmarshal data = .ok (H, 0) ∧ ∀ a b lit id, SubAt v 0 (.num a b lit) id →
+      lit = slice data a b ∧
+      (H.getNumeric (some id)).2 = (match parseFloat64 lit with | .ok bits => .ok bits | .error _ => .err (errT .foreign)) := by
+  obtain ⟨H, hu, hr, hw, hd⟩ := unmarshal_tree data v hp
+  refine ⟨H, hu, fun a b lit id hs => ?_⟩
+  obtain ⟨hr', hw'⟩ := hs.rep hr hw
+  exact ⟨by simp only [WfT] at hw'; exact hw'.2, hr'.getNumeric hw' hd⟩
+
+/-- a string node reads as its unquoted literal; reading it cannot fail -/
+theorem C02_string (data : Bytes) (v : STree) (hp : parseRef data = .ok v) :
+    ∃ H, unmarshal data = .ok (H, 0) ∧ ∀ a b raw id, SubAt v 0 (.str a b raw) id →
+      raw = slice data a b ∧ ∃ s, unquoteBytes raw 34 = some s ∧ (H.getString (some id)).2 = .ok s := by
+  obtain ⟨H, hu, hr, hw, hd⟩ := unmarshal_tree data v hp
+  refine ⟨H, hu, fun a b raw id hs => ?_⟩
+  obtain ⟨hr', hw'⟩ := hs.rep hr hw
+  exact ⟨by simp only [WfT] at hw'; exact hw'.2.1, hr'.getString hw' hd⟩
+
+/-- `true` and `false` read as themselves, `null` answers GetNull -/
+theorem C02_bool (data : Bytes) (v : STree) (hp : parseRef data = .ok v) :
+    ∃ H, unmarshal data = .ok (H, 0) ∧ (∀ a b x id, SubAt v 0 (.bool a b x) id → (H.getBool (some id)).2 = .ok x) ∧
+      (∀ a b id, SubAt v 0 (.null a b) id → H.getNull (some id) = .ok ()) := by
+  obtain ⟨H, hu, hr, hw, hd⟩ := unmarshal_tree data v hp
+  refine ⟨H, hu, fun a b x id hs => ?_, fun a b id hs => ?_⟩
+  · obtain ⟨hr', hw'⟩ := hs.rep hr hw
+    exact hr'.getBool hw' hd
+  · obtain ⟨hr', hw'⟩ := hs.rep hr hw
+    have := (hr'.node hw').1
+    simp [Heap.getNull, typeOf, this, STree.ntype]
+
+/-- an array node has exactly its elements: `Size()` is their number and `GetIndex(k)` is the node of the k-th element, whose
+`index` is k -/
+theorem C02_array (data : Bytes) (v : STree) (hp : parseRef data = .ok v) :
+    ∃ H, unmarshal data = .ok (H, 0) ∧ ∀ a b pre x post id, SubAt v 0 (.arr a b (pre ++ x :: post)) id →
+      H.nchildren id = (pre ++ x :: post).length ∧
+      H.getIndex (some id) (pre.length : Int) = .ok (id + 1 + nodesL pre) ∧ (H.get (id + 1 + nodesL pre)).index = some pre.length := by
+  obtain ⟨H, hu, hr, hw, hd⟩ := unmarshal_tree data v hp
+  refine ⟨H, hu, fun a b pre x post id hs => ?_⟩
+  obtain ⟨hr', hw'⟩ := hs.rep hr hw
+  have hty := (hr'.node hw').1
+  simp only [Rep] at hr'
+  obtain ⟨_, hlk, hidx⟩ := RepElems.get pre x post 0 (id + 1) _ hr'.2.2
+  have hn : H.nchildren id = (pre ++ x :: post).length := by
+    unfold nchildren
+    have := congrArg List.length hr'.2.1
+    simpa [ChildMap.keys] using this
+  refine ⟨hn, ?_, by simpa using hidx⟩
+  simp only [Nat.zero_add] at hlk
+  have hnn : ¬ ((pre.length : Int) < 0) := by omega
+  simp [Heap.getIndex, typeOf, hty, STree.ntype, hnn, hlk]
+
+/-- an object node has exactly its distinct keys, and `GetKey(k)` answers with the LAST member named k -/
+theorem C02_object (data : Bytes) (v : STree) (hp : parseRef data = .ok v) :
+    ∃ H, unmarshal data = .ok (H, 0) ∧ ∀ a b kvs id, SubAt v 0 (.obj a b kvs) id →
+      (∀ key, (H.getKey (some id) key).isOk = kvs.any (fun p => p.1 == key)) ∧
+      (∀ pre key x post, kvs = pre ++ (key, x) :: post → post.any (fun p => p.1 == key) = false →
+        H.getKey (some id) key = .ok (id + 1 + nodesM pre) ∧ (H.get (id + 1 + nodesM pre)).key = some key) := by
+  obtain ⟨H, hu, hr, hw, hd⟩ := unmarshal_tree data v hp
+  refine ⟨H, hu, fun a b kvs id hs => ?_⟩
+  obtain ⟨hr', hw'⟩ := hs.rep hr hw
+  have hty := (hr'.node hw').1
+  simp only [Rep] at hr'
+  refine ⟨fun key => ?_, fun pre key x post hk hns => ?_⟩
+  · have := hr'.2.1 key
+    simp only [Heap.getKey, typeOf, hty, STree.ntype, bne_self_eq_false, Bool.false_eq_true, if_false]
+    cases hl : (H.childMap id).lookup key with
+    | none => rw [hl] at this; simpa [Outcome.isOk] using this
+    | some c => rw [hl] at this; simpa [Outcome.isOk] using this
+  · subst hk
+    obtain ⟨_, hlk, hkey⟩ := RepMembers.get pre key x post (id + 1) _ hr'.2.2 hns
+    exact ⟨by simp [Heap.getKey, typeOf, hty, STree.ntype, hlk], hkey⟩
+
+/-- non-vacuity (kernel evaluation): a text with a duplicate key, an escape and a nested array -/
+example : (match parseRef "{\"a\":1,\"b\":[true,\"x\\n\"],\"a\":2}".toUTF8.toList with
+    | .ok (.obj _ _ kvs) => kvs.length == 3
+    | _ => false) = true := by decide +kernel
 
 /-- a typed getter on a nil node reports "not parsed" -/
 theorem C02_nil_unparsed (h : Heap) :
